@@ -26,6 +26,12 @@ func TestC07(t *testing.T) {
 	rapid.Check(t, func(t *rapid.T) {
 		d := wire.GenSFDatagram(t)
 		v, sig, err := runSFlowDecode(&d, nil)
+		if err == nil && len(d.Samples) > 0 && rapid.IntRange(0, 7).Draw(t, "twins") == 0 {
+			if e := concurrently(6, func() error { _, _, e := runSFlowDecode(&d, nil); return e }); e != nil {
+				sig, err = "concurrent", fmt.Errorf("decoded by 6 goroutines at once: %v", e)
+			}
+			v.label(true, "concurrent-twins")
+		}
 		col.report(t, mustJSON(d), v, sig, err)
 	})
 }
